@@ -189,7 +189,8 @@ Record Base (s : st) : Prop := mkBase {
   b_lt : forall c id f, In (id, f) (entries c s) -> (id < next s)%N;
   b_live : forall c id f, In (id, f) (entries c s) -> ~ In id (closed s);
   b_closed_lt : forall id, In id (closed s) -> (id < next s)%N;
-  b_sub_reg : forall c id f, In (id, f) (entries c s) -> In (MSub id f c) (inner s)
+  b_sub_reg : forall c id f, In (id, f) (entries c s) -> In (MSub id f c) (inner s);
+  b_sub_owner : forall id f o, In (MSub id f o) (inner s) -> exists t, snd o = TStream t
 }.
 
 Lemma base_init : Base init.
@@ -285,6 +286,7 @@ Proof.
     intros c' id' f' Hc' He'. cbn [is_sub]. destruct (N.eqb id' id) eqn:E; [|reflexivity].
     apply EN in E. subst id'. assert (c = c') by (eapply (b_own s B); eassumption). subst c'.
     exfalso; exact (Hc Hc').
+  - intros id f o H. cbn [stopped inner] in H. apply Hinn in H. apply (b_sub_owner s B id f o). apply H.
 Qed.
 
 Lemma entries_attach_eq fs s c : entries c (attach fs s c) = mk_subs fs (next s).
@@ -293,9 +295,9 @@ Proof. unfold entries, attach; cbn [subs]. rewrite slk_ins_eq. reflexivity. Qed.
 Lemma entries_attach_neq fs s c c' : c' <> c -> entries c' (attach fs s c) = entries c' s.
 Proof. intros H. unfold entries, attach; cbn [subs]. rewrite slk_ins_neq by exact H. reflexivity. Qed.
 
-Lemma base_attach fs s c : Base s -> Base (attach fs s c).
+Lemma base_attach fs s c : Base s -> (exists t, snd c = TStream t) -> Base (attach fs s c).
 Proof.
-  intros B. constructor.
+  intros B Hstream. constructor.
   - unfold attach; cbn [subs]. apply nodup_insert; [exact EC|apply (b_nd_subs s B)].
   - unfold attach; cbn [streams]. apply (b_cl s B).
   - intros c'. destruct (client_dec c' c) as [->|Hn].
@@ -317,6 +319,8 @@ Proof.
   - intros c' id f. unfold attach at 2; cbn [inner]. rewrite in_app_iff. destruct (client_dec c' c) as [->|Hn].
     + rewrite entries_attach_eq. intros H. right. apply in_map_iff. exists (id, f). split; [reflexivity|exact H].
     + rewrite entries_attach_neq by exact Hn. intros H. left. apply (b_sub_reg s B); exact H.
+  - intros id f o. unfold attach; cbn [inner]. rewrite in_app_iff, in_map_iff.
+    intros [H|[[i g] [E _]]]; [apply (b_sub_owner s B id f o H)|]. cbn in E. inversion E; subst. exact Hstream.
 Qed.
 
 Lemma base_set_rules r s : Base s -> Base (set_rules r s).
@@ -329,10 +333,12 @@ Proof. intros B H. destruct B. constructor; assumption. Qed.
 
 Lemma base_set_inner inn s : Base s ->
   (forall id f o, In (MSub id f o) (inner s) -> In (MSub id f o) inn) ->
+  (forall id f o, In (MSub id f o) inn -> In (MSub id f o) (inner s)) ->
   Base (set_inner inn s).
 Proof.
-  intros B H. destruct B as [a1 a2 a3 a4 a5 a6 a7 a8]. constructor; try assumption.
-  intros c id f He. apply H. apply a8. exact He.
+  intros B H H'. destruct B as [a1 a2 a3 a4 a5 a6 a7 a8 a9]. constructor; try assumption.
+  - intros c id f He. apply H. apply a8. exact He.
+  - intros id f o Hm. cbn [set_inner inner] in Hm. apply (a9 id f o). apply H'. exact Hm.
 Qed.
 
 (* ------------------------------------------------------------------ rules, streams and sub-clients agree *)
@@ -392,7 +398,7 @@ Lemma is_sub_self id f o : is_sub id (MSub id f o) = true.
 Proof. cbn. apply N.eqb_refl. Qed.
 
 (* ---- attaching fresh sub-clients to a set of clients ---- *)
-Lemma attach_all_spec fs cs : forall s, Base s -> NoDup cs ->
+Lemma attach_all_spec fs cs : forall s, Base s -> NoDup cs -> (forall c, In c cs -> exists t, snd c = TStream t) ->
   let s' := fold_left (attach fs) cs s in
   Base s' /\ rules s' = rules s /\ streams s' = streams s /\
   (forall c, In c cs -> exists l, slk c (subs s') = Some l /\ map snd l = fs) /\
@@ -401,11 +407,12 @@ Lemma attach_all_spec fs cs : forall s, Base s -> NoDup cs ->
   (forall id f o, In (MSub id f o) (inner s') ->
       In (MSub id f o) (inner s) \/ (In o cs /\ In (id, f) (entries o s'))).
 Proof.
-  induction cs as [|c r IH]; intros s B Hnd; cbn [fold_left].
+  induction cs as [|c r IH]; intros s B Hnd Hall; cbn [fold_left].
   - split; [exact B|]. split; [reflexivity|]. split; [reflexivity|]. split; [intros c []|].
     split; [reflexivity|]. split; [tauto|]. intros id f o H; left; exact H.
   - inversion Hnd as [|? ? Hc Hr]; subst.
-    destruct (IH (attach fs s c) (base_attach fs s c B) Hr) as (B' & Hru & Hst & Hin & Hout & Hpl & Hsub).
+    destruct (IH (attach fs s c) (base_attach fs s c B (Hall c (or_introl eq_refl))) Hr (fun x Hx => Hall x (or_intror Hx)))
+      as (B' & Hru & Hst & Hin & Hout & Hpl & Hsub).
     split; [exact B'|]. split; [rewrite Hru; reflexivity|]. split; [rewrite Hst; reflexivity|].
     split; [|split; [|split]].
     + intros c' [->|H].
@@ -479,7 +486,7 @@ Proof.
   - exists (attach fs s1 c). split; [reflexivity|].
     assert (Hcl2 : forall t', clients_of t' (attach fs s1 c) = clients_of t' s1) by reflexivity.
     split; [split|split; [|split]].
-    + apply base_attach; exact B1.
+    + apply base_attach; [exact B1|exists t; exact Hc].
     + constructor.
       * intros c' Hs. destruct (client_dec c' c) as [->|Hn].
         { exists t. split; [exact Hc|]. rewrite Hcl2, Hcl. left; auto. }
@@ -549,7 +556,9 @@ Proof.
   intros [B M] Hc. cbn [step]. rewrite Hc.
   exists (set_inner (inner_add (MPlain c) (inner s)) s). split; [reflexivity|].
   split; [split|split; [|split]].
-  - apply base_set_inner; [exact B|]. intros id g o H. apply in_inner_add. right; exact H.
+  - apply base_set_inner; [exact B| |].
+    + intros id g o H. apply in_inner_add. right; exact H.
+    + intros id g o H. apply in_inner_add in H. destruct H as [H|H]; [discriminate|exact H].
   - apply (match_ext s); try reflexivity. exact M.
   - intros t. reflexivity.
   - intros x. unfold regP. destruct (snd x) as [t|g] eqn:Ex.
@@ -569,7 +578,9 @@ Proof.
   intros [B M] Hc. cbn [step]. rewrite Hc.
   exists (set_inner (inner_del (MPlain c) (inner s)) s). split; [reflexivity|].
   split; [split|split; [|split]].
-  - apply base_set_inner; [exact B|]. intros id g o H. apply in_inner_del. split; [exact H|discriminate].
+  - apply base_set_inner; [exact B| |].
+    + intros id g o H. apply in_inner_del. split; [exact H|discriminate].
+    + intros id g o H. apply in_inner_del in H. apply H.
   - apply (match_ext s); try reflexivity. exact M.
   - intros t. reflexivity.
   - intros x. unfold regP. destruct (snd x) as [t|g] eqn:Ex.
@@ -686,7 +697,8 @@ Proof.
   assert (Hcs : clients_of t s1 = clients_of t s) by (unfold clients_of; rewrite Hst1; reflexivity).
   rewrite Hcs. destruct (clients_of_wf s t B) as [Hnd Htp].
   set (s2 := set_rules (rins t fs (rules s1)) s1).
-  destruct (attach_all_spec fs (clients_of t s) s2 (base_set_rules _ s1 B1) Hnd) as (B' & Hru & Hst & Hin & Hout & Hpl & Hsub).
+  destruct (attach_all_spec fs (clients_of t s) s2 (base_set_rules _ s1 B1) Hnd (fun x Hx => ex_intro _ t (Htp x Hx)))
+    as (B' & Hru & Hst & Hin & Hout & Hpl & Hsub).
   set (s' := fold_left (attach fs) (clients_of t s) s2) in *.
   assert (Hcl : forall t', clients_of t' s' = clients_of t' s).
   { intros t'. unfold clients_of. rewrite Hst. unfold s2; cbn [set_rules streams]. rewrite Hst1. reflexivity. }
@@ -776,6 +788,7 @@ Proof.
       * apply (b_closed_lt s B); exact H.
       * eapply (b_lt s B); exact H.
     + intros c id f [].
+    + intros id f o Hm. apply Hinn in Hm. apply (b_sub_owner s B id f o). apply Hm.
   - constructor; cbn [rules streams subs lookup].
     + intros c H. congruence.
     + intros t c _. reflexivity.
@@ -1020,4 +1033,75 @@ Theorem delivery_spec_run ops f : wf ops ->
 Proof.
   intros W. destruct (delivery_spec ops f W) as (s & Hf & H).
   exists (recipients f (inner s)). split; [apply run_then_bcast; exact Hf|exact H].
+Qed.
+
+(* ------------------------------------------------------------------ plain subscribers, every history *)
+(* a plain subscriber of feed g is offered a broadcast on f exactly when it is registered and g = f -
+   whatever the rule operations in the history, and without any assumption on how clients register *)
+Theorem plain_delivery ops c g f : snd c = TFeed g ->
+  exists s, final true ops = Some s /\
+    (In c (recipients f (inner s)) <-> reg_of ops c = true /\ g = f).
+Proof.
+  intros Hc. destruct (reach ops) as (s & Hf & [B M] & _ & Hg & _). exists s. split; [exact Hf|].
+  rewrite in_recipients, <- Hg. unfold regP. rewrite Hc. split.
+  - intros [[Hm E]|[id Hm]]; [split; [exact Hm|congruence]|].
+    destruct (b_sub_owner s B id f c Hm) as [t Ht]. congruence.
+  - intros [Hm ->]. left. auto.
+Qed.
+
+(* ------------------------------------------------------------------ a rule edit takes effect at once *)
+(* the operation leaves stream t without feed f: a rule for t that does not name f, a delete of t's
+   rule, a delete-all *)
+Definition mutes (o : op) (t f : N) : Prop :=
+  match o with
+  | AddRule t' fs => t' = t /\ t <> reserved /\ ~ In f fs
+  | Delete t' => t' = t \/ t' = reserved
+  | DeleteAll => True
+  | _ => False
+  end.
+
+Lemma rule_of_after_mute ops o t f : mutes o t f -> forall fs, rule_of (ops ++ [o]) t = Some fs -> ~ In f fs.
+Proof.
+  intros Hm fs. rewrite rule_of_snoc. destruct o as [c|c|t' fs'|t'| |g]; cbn [mutes rule_step] in *; try contradiction.
+  - destruct Hm as (-> & Hr & Hn). destruct (N.eqb_spec t reserved); [contradiction|].
+    rewrite N.eqb_refl. intros E; inversion E; subst. exact Hn.
+  - destruct (N.eqb_spec t' reserved); [discriminate|]. destruct Hm as [->|E]; [|contradiction].
+    rewrite N.eqb_refl. discriminate.
+  - discriminate.
+Qed.
+
+Theorem muted_feed_stops ops o t f c :
+  wf (ops ++ [o]) -> mutes o t f -> snd c = TStream t ->
+  exists out, run true init ((ops ++ [o]) ++ [Bcast f]) = (fst (run true init (ops ++ [o])) ++ [out], false) /\
+    ~ In c out.
+Proof.
+  intros W Hm Hc. destruct (delivery_spec_run (ops ++ [o]) f W) as (out & Hr & H). exists out. split; [exact Hr|].
+  intros Hin. apply H in Hin. destruct Hin as [_ Hx]. rewrite Hc in Hx. destruct Hx as (fs & Hfs & Hf).
+  exact (rule_of_after_mute ops o t f Hm fs Hfs Hf).
+Qed.
+
+Theorem new_feed_starts ops t fs f c :
+  wf (ops ++ [AddRule t fs]) -> t <> reserved -> In f fs -> snd c = TStream t -> reg_of ops c = true ->
+  exists out, run true init ((ops ++ [AddRule t fs]) ++ [Bcast f]) =
+                (fst (run true init (ops ++ [AddRule t fs])) ++ [out], false) /\ In c out.
+Proof.
+  intros W Hr Hf Hc Hreg. destruct (delivery_spec_run (ops ++ [AddRule t fs]) f W) as (out & Hrun & H).
+  exists out. split; [exact Hrun|]. apply H. unfold expected. split.
+  - rewrite reg_of_snoc. exact Hreg.
+  - rewrite Hc. exists fs. split; [|exact Hf]. rewrite rule_of_snoc. cbn [rule_step].
+    destruct (N.eqb_spec t reserved); [contradiction|]. rewrite N.eqb_refl. reflexivity.
+Qed.
+
+(* ------------------------------------------------------------------ names *)
+Theorem topic_of_name_spec name n :
+  (topic_of_name name n = TStream n <-> prefix "stream/" name = true) /\
+  (topic_of_name name n = TFeed n <-> prefix "stream/" name = false).
+Proof. unfold topic_of_name. destruct (prefix "stream/" name); split; split; intros H; try discriminate; reflexivity. Qed.
+
+Theorem stream_reserved_is_exact_word name n : n <> reserved ->
+  (stream_of_name name n = reserved <-> name = "deleteAll"%string).
+Proof.
+  intros Hn. unfold stream_of_name. destruct (String.eqb_spec name "deleteAll") as [->|Hne].
+  - split; reflexivity.
+  - split; intros E; contradiction.
 Qed.
